@@ -184,6 +184,13 @@ func (a *Analyzer) onRPC(n *nodeState, r *ev.Rec) {
 			if r.DiskOK {
 				a.stat("grants-checked-against-disk")
 			}
+			// C02: election restriction - the only thing that makes every later
+			// leader hold the committed entries: a vote goes only to a candidate
+			// whose log is at least as up to date as the voter's
+			if r.B < st.LastTerm || (r.B == st.LastTerm && r.A < st.Last) {
+				a.find("C02", "vote-for-candidate-with-older-log", "", r.Q, "%s (last entry %d of term %d) grants its vote to %d whose last entry is %d of term %d", n.key, st.Last, st.LastTerm, r.Src, r.A, r.B)
+			}
+			a.stat("grants-checked-for-log-freshness")
 			if st.Term == r.ReqTerm && st.Vote == r.Src {
 				n.ackVoteTerm, n.ackVoteFor = r.ReqTerm, r.Src
 			}
@@ -223,6 +230,7 @@ func (a *Analyzer) onRPC(n *nodeState, r *ev.Rec) {
 		}
 		if r.RPC == "installSnap" {
 			a.stat("snapshot-installs:" + r.Res)
+			n.snapTouched = true
 			a.shape(fmt.Sprintf("inst:%d", n.key.nid))
 			if r.Res == "success" {
 				// C19/C02: an install never moves the snapshot backwards
